@@ -16,13 +16,29 @@ theorem inv_stepMsg {s s' : State} {op : Op} (hi : Inv s) (hu : isModuleAcc op.s
   | unstake sender id denom amt => exact inv_unstake hi hu h
   | harvest sender id => exact inv_harvest hi hu h
   | endBlocks n => simp [stepMsg] at h; subst h; exact hi
+  | cpPass pid => simp [stepMsg] at h; subst h; exact hi
+  | cpReject pid => simp [stepMsg] at h; subst h; exact hi
+  | cpFailDeposit pid => simp [stepMsg] at h; subst h; exact hi
+  | cpSubmit proposer title c deposit =>
+    obtain ⟨f, u⟩ := cpSubmit_frame hu hi.cpu h
+    exact (inv0_cpFrame f hi.inv0).withUsers u
+  | fundCp sender amt =>
+    obtain ⟨f, he, hp⟩ := fundCp_frame hu h
+    exact (inv0_cpFrame f hi.inv0).withUsers (cpUsers_of_eq he hp hi.cpu)
+
+/-- gov's EndBlocker on one proposal (with the farm hooks and, for a passed proposal, the pool
+its handler creates) keeps the bundle -/
+theorem inv_govStep {s s' : State} (hi : Inv s) (h : GovStep s s') : Inv s' := by
+  obtain ⟨e, u⟩ := govStep_effect hi.cpu h
+  exact (inv0_cpEffect e hi.inv0).withUsers u
 
 /-- every operation keeps the bundle -/
 theorem inv_apply (s : State) (op : Op) (hi : Inv s) : Inv (apply s op) := by
-  rcases apply_cases s op with ⟨n, _, h⟩ | h | ⟨h, hu, _⟩
+  rcases apply_cases s op with ⟨n, _, h⟩ | h | ⟨h, hu, _⟩ | h
   · rw [h]; exact endBlocks_inv n hi
   · rw [h]; exact hi
   · exact inv_stepMsg hi hu h
+  · exact inv_govStep hi h
 
 theorem inv_run : ∀ (ops : List Op) (s : State), Inv s → Inv (run s ops)
   | [], _, hi => hi
@@ -31,10 +47,11 @@ theorem inv_run : ∀ (ops : List Op) (s : State), Inv s → Inv (run s ops)
     exact inv_run ops _ (inv_apply s op hi)
 
 theorem inv_genesis {s : State} (hg : C05.Genesis s) (hh : 0 ≤ s.height) : Inv s := by
-  obtain ⟨hp, hf, hq, _, _, hb, _⟩ := hg
+  obtain ⟨hp, hf, hq, _, _, hb, _, hesc, hprops, _⟩ := hg
   have gp : ∀ id, getPool s id = none := fun id => by unfold getPool; rw [hp]; rfl
   have gf : ∀ a id, getFarmer s a id = none := fun a id => by unfold getFarmer; rw [hf]; rfl
-  refine ⟨⟨hh, ?_, ?_, ⟨?_, ?_, ?_⟩, ?_, ?_, ?_, ?_⟩, ⟨?_, ?_⟩, ?_⟩
+  refine ⟨⟨hh, ?_, ?_, ⟨?_, ?_, ?_⟩, ?_, ?_, ?_, ?_⟩, ⟨?_, ?_⟩, ?_,
+    ⟨fun pid e h => (by rw [hesc] at h; cases h), fun pid pr h => (by rw [hprops] at h; cases h)⟩⟩
   · intro id p h; rw [gp] at h; cases h
   · intro id p h; rw [gp] at h; cases h
   · intro h id hm; rw [hq] at hm; cases hm
